@@ -39,6 +39,7 @@ package hessian
 //@   assigns @pos, @E, @declared
 //@   loop 1 invariant [C14,C05:clsdef-index] 0 <= i && i <= int(count) && len(fields) == i
 //@   loop 1 invariant [C14:clsdef-consumed] i <= @pos - old(@pos)
+//@   loop 1 decreases int(count) - i
 //@   ensures [C05:classdef-total] true
 
 //@ func findField
@@ -48,6 +49,7 @@ package hessian
 //@   ensures [C05:find-by-name] err == nil ==> R.tFieldName(typ, result0) == name || R.tFieldName(typ, result0) == R.capName(name)
 
 //@ func (*Decoder).readObject
+//@   depth [C14:decode-depth] rank 1 measure len(@in) - @pos + 1
 //@   assigns @pos, @E, @declared, @rset, @nvals, @selfregs, @lastreader, @calls, @dstartcls, @dstartrefs, @dstarttyps, d.typList, d.refList, d.clsDefList
 //@   loop 1 invariant [C14,C05:object-index] 0 <= i && i <= len(cls.FieldName)
 //@   loop 1 invariant [C04:object-registered-first] @selfregs == old(@selfregs) + 1 && len(d.refList) >= len(old(d.refList)) + 1 && len(d.clsDefList) >= len(old(d.clsDefList)) && len(d.refList) >= len(old(d.refList)) && len(d.typList) >= len(old(d.typList))
@@ -57,6 +59,7 @@ package hessian
 //@   ensures [C06:tables-grow] len(d.clsDefList) >= len(old(d.clsDefList)) && len(d.refList) >= len(old(d.refList)) && len(d.typList) >= len(old(d.typList))
 
 //@ func (*Decoder).readField
+//@   depth [C14:decode-depth] rank 6 measure len(@in) - @pos
 //@   assigns @pos, @E, @declared, @rset, @nvals, @selfregs, @lastreader, @calls, @dstartcls, @dstartrefs, @dstarttyps, d.typList, d.refList, d.clsDefList
 //@   summary @nvals = old(@nvals) + 1
 //@   summary @selfregs = old(@selfregs)
@@ -75,6 +78,7 @@ package hessian
 //@   ensures [C06:tables-grow] len(d.clsDefList) >= len(old(d.clsDefList)) && len(d.refList) >= len(old(d.refList)) && len(d.typList) >= len(old(d.typList))
 
 //@ func (*Decoder).readTagObject
+//@   depth [C14:decode-depth] rank 2 measure len(@in) - @pos + 1
 //@   assigns @pos, @E, @declared, @rset, @nvals, @selfregs, @lastreader, @calls, @dstartcls, @dstartrefs, @dstarttyps, d.typList, d.refList, d.clsDefList
 //@   sets @lastreader = 7
 //@   sets @calls = old(@calls) + 1
@@ -83,6 +87,7 @@ package hessian
 //@   ensures [C06:tables-grow] len(d.clsDefList) >= len(old(d.clsDefList)) && len(d.refList) >= len(old(d.refList)) && len(d.typList) >= len(old(d.typList))
 
 //@ func (*Decoder).ReadLenTagObject
+//@   depth [C14:decode-depth] rank 2 measure len(@in) - @pos + 1
 //@   requires 0x60 <= tag && tag <= 0x6f
 //@   assigns @pos, @E, @declared, @rset, @nvals, @selfregs, @lastreader, @calls, @dstartcls, @dstartrefs, @dstarttyps, d.typList, d.refList, d.clsDefList
 //@   sets @lastreader = 6
@@ -107,12 +112,14 @@ package hessian
 //@   ensures [C14:grown-bounds] n < result && result <= length && (result <= 2*n || result <= 2048)
 
 //@ func (*Decoder).readTypedList
+//@   depth [C14:decode-depth] rank 2 measure len(@in) - @pos + 1
 //@   assigns @pos, @E, @declared, @rset, @nvals, @selfregs, @lastreader, @calls, @dstartcls, @dstartrefs, @dstarttyps, d.typList, d.refList, d.clsDefList
 //@   sets @lastreader = 1
 //@   sets @calls = old(@calls) + 1
 //@   loop 1 invariant [C14,C03:typedlist-index] (isVariableArr || (0 <= j && j <= length)) && 0 <= length && length <= 0x7fffffff
 //@   loop 1 invariant [C14:typedlist-consumed] isVariableArr || (j <= @pos - old(@pos) && 0 <= size && size <= length)
 //@   loop 1 invariant [C03,C06:typedlist-one-value-per-element] @nvals == old(@nvals) + j
+//@   loop 1 decreases ite(isVariableArr, len(@in) - @pos, length - j)
 //@   loop 1 invariant [C04:typedlist-registered-first] @selfregs == old(@selfregs) + 1 && len(d.refList) >= len(old(d.refList)) + 1 && len(d.clsDefList) >= len(old(d.clsDefList)) && len(d.refList) >= len(old(d.refList)) && len(d.typList) >= len(old(d.typList))
 //@   proves  [C03,C06:typedlist-count]   err == nil && result0 != nil && tag != 0x55 ==> @nvals == old(@nvals) + length
 //@   proves  [C03:typedlist-compact-len] err == nil && result0 != nil && 0x70 <= tag && tag <= 0x77 ==> length == int(tag) - 0x70
@@ -120,12 +127,14 @@ package hessian
 //@   ensures [C06:tables-grow] len(d.clsDefList) >= len(old(d.clsDefList)) && len(d.refList) >= len(old(d.refList)) && len(d.typList) >= len(old(d.typList))
 
 //@ func (*Decoder).readUntypedList
+//@   depth [C14:decode-depth] rank 2 measure len(@in) - @pos + 1
 //@   assigns @pos, @E, @declared, @rset, @nvals, @selfregs, @lastreader, @calls, @dstartcls, @dstartrefs, @dstarttyps, d.typList, d.refList, d.clsDefList
 //@   sets @lastreader = 2
 //@   sets @calls = old(@calls) + 1
 //@   loop 1 invariant [C14,C03:untypedlist-index] (isVariableArr || (0 <= j && j <= length)) && 0 <= length && length <= 0x7fffffff && (!isVariableArr ==> j <= len(ary) && len(ary) <= length)
 //@   loop 1 invariant [C14:untypedlist-consumed] isVariableArr || j <= @pos - old(@pos)
 //@   loop 1 invariant [C03,C06:untypedlist-one-value-per-element] @nvals == old(@nvals) + j
+//@   loop 1 decreases ite(isVariableArr, len(@in) - @pos, length - j)
 //@   loop 1 invariant [C04:untypedlist-registered-first] @selfregs == old(@selfregs) + 1 && len(d.refList) >= len(old(d.refList)) + 1 && len(d.clsDefList) >= len(old(d.clsDefList)) && len(d.refList) >= len(old(d.refList)) && len(d.typList) >= len(old(d.typList))
 //@   proves  [C03,C06:untypedlist-count]   err == nil && result0 != nil && tag != 0x57 ==> @nvals == old(@nvals) + length
 //@   proves  [C03:untypedlist-compact-len] err == nil && result0 != nil && 0x78 <= tag && tag <= 0x7f ==> length == int(tag) - 0x78
@@ -133,6 +142,7 @@ package hessian
 //@   ensures [C06:tables-grow] len(d.clsDefList) >= len(old(d.clsDefList)) && len(d.refList) >= len(old(d.refList)) && len(d.typList) >= len(old(d.typList))
 
 //@ func (*Decoder).ReadList
+//@   depth [C14:decode-depth] rank 3 measure len(@in) - @pos + ite(flag == -1, 0, 1)
 //@   requires flag == -1 || (0 <= flag && flag <= 255)
 //@   assigns @pos, @E, @declared, @rset, @nvals, @selfregs, @lastreader, @calls, @dstartcls, @dstartrefs, @dstarttyps, d.typList, d.refList, d.clsDefList
 //@   summary @nvals = old(@nvals) + ite(err == nil, 1, 0)
@@ -146,31 +156,38 @@ package hessian
 // ---------------------------------------------------------------- maps (C03, C04, C06)
 
 //@ func (*Decoder).readTypedMap
+//@   depth [C14:decode-depth] rank 2 measure len(@in) - @pos + 1
 //@   assigns @pos, @E, @declared, @rset, @nvals, @selfregs, @lastreader, @calls, @dstartcls, @dstartrefs, @dstarttyps, d.typList, d.refList, d.clsDefList
 //@   sets @lastreader = 3
 //@   sets @calls = old(@calls) + 1
 //@   loop 1 invariant [C04:typedmap-registered-first] @selfregs == old(@selfregs) + 1 && len(d.refList) >= len(old(d.refList)) + 1 && len(d.clsDefList) >= len(old(d.clsDefList)) && len(d.refList) >= len(old(d.refList)) && len(d.typList) >= len(old(d.typList))
+//@   loop 1 decreases len(@in) - @pos
 //@   ensures [C04:typedmap-registered] err == nil ==> @selfregs == old(@selfregs) + 1
 //@   ensures [C06:tables-grow] len(d.clsDefList) >= len(old(d.clsDefList)) && len(d.refList) >= len(old(d.refList)) && len(d.typList) >= len(old(d.typList))
 
 //@ func (*Decoder).readUntypedMap
+//@   depth [C14:decode-depth] rank 2 measure len(@in) - @pos + 1
 //@   assigns @pos, @E, @declared, @rset, @nvals, @selfregs, @lastreader, @calls, @dstartcls, @dstartrefs, @dstarttyps, d.typList, d.refList, d.clsDefList
 //@   sets @lastreader = 4
 //@   sets @calls = old(@calls) + 1
 //@   loop 1 invariant [C04:untypedmap-registered-first] @selfregs == old(@selfregs) + 1 && len(d.refList) >= len(old(d.refList)) + 1 && len(d.clsDefList) >= len(old(d.clsDefList)) && len(d.refList) >= len(old(d.refList)) && len(d.typList) >= len(old(d.typList))
+//@   loop 1 decreases len(@in) - @pos
 //@   ensures [C04:untypedmap-registered] err == nil ==> @selfregs == old(@selfregs) + 1
 //@   ensures [C06:untypedmap-no-carrier] err == nil ==> result0 != nil
 //@   ensures [C06:tables-grow] len(d.clsDefList) >= len(old(d.clsDefList)) && len(d.refList) >= len(old(d.refList)) && len(d.typList) >= len(old(d.typList))
 
 //@ func (*Decoder).readMap
+//@   depth [C14:decode-depth] rank 5 measure len(@in) - @pos
 //@   assigns @pos, @E, @declared, @rset, @nvals, @selfregs, @lastreader, @calls, @dstartcls, @dstartrefs, @dstarttyps, d.typList, d.refList, d.clsDefList
 //@   loop 1 invariant [C04:map-registered-first] @selfregs == old(@selfregs) + 1 && len(d.refList) >= len(old(d.refList)) + 1 && len(d.clsDefList) >= len(old(d.clsDefList)) && len(d.refList) >= len(old(d.refList)) && len(d.typList) >= len(old(d.typList))
+//@   loop 1 decreases len(@in) - @pos
 //@   ensures [C04:map-total] true
 //@   ensures [C06:tables-grow] len(d.clsDefList) >= len(old(d.clsDefList)) && len(d.refList) >= len(old(d.refList)) && len(d.typList) >= len(old(d.typList))
 
 // ---------------------------------------------------------------- dispatch (C01, C03, C06)
 
 //@ func (*Decoder).readStruct
+//@   depth [C14:decode-depth] rank 5 measure len(@in) - @pos
 //@   assigns @pos, @E, @declared, @rset, @nvals, @selfregs, @lastreader, @calls, @dstartcls, @dstartrefs, @dstarttyps, d.typList, d.refList, d.clsDefList
 //@   summary @nvals = old(@nvals) + ite(err == nil, 1, 0)
 //@   summary @selfregs = old(@selfregs)
@@ -186,6 +203,7 @@ package hessian
 //@   ensures [C06:tables-grow] len(d.clsDefList) >= len(old(d.clsDefList)) && len(d.refList) >= len(old(d.refList)) && len(d.typList) >= len(old(d.typList))
 
 //@ func (*Decoder).ReadData
+//@   depth [C14:decode-depth] rank 4 measure len(@in) - @pos
 //@   assigns @pos, @E, @declared, @rset, @nvals, @selfregs, @lastreader, @calls, @dstartcls, @dstartrefs, @dstarttyps, d.typList, d.refList, d.clsDefList
 //@   sets @dstartcls = len(old(d.clsDefList))
 //@   sets @dstartrefs = len(old(d.refList))
